@@ -56,6 +56,8 @@ class Client(_M):
         self._client_metadata = None
         md = {"redirect_uris": list(redirect_uris), "scope": scope, "grant_types": list(grant_types),
               "response_types": list(response_types), "token_endpoint_auth_method": token_endpoint_auth_method}
+        if token_endpoint_auth_method is None:
+            del md["token_endpoint_auth_method"]     # a registration that leaves the member out: RFC 7591's default applies
         if jwks is not None:
             md["jwks"] = jwks
         self.set_client_metadata(md)
@@ -148,9 +150,15 @@ class Store:
 
 
 class Server(AuthorizationServer):
-    def __init__(self, store, scopes_supported=None, token_generator=None):
+    """`transport` selects the glue between the HTTP request and the library: "neutral" (this class), or the repository's
+    own Flask / Django integration (impl/transports.py); requests a framework would read differently stay neutral."""
+
+    def __init__(self, store, scopes_supported=None, token_generator=None, transport="neutral"):
         super().__init__(scopes_supported=scopes_supported)
         self.store = store
+        self.transport = transport
+        self._transport = "neutral"      # what is in force during the current call
+        self.via = {}
         if token_generator is None:
             token_generator = BearerTokenGenerator(
                 lambda **kw: store.fresh("at"), lambda **kw: store.fresh("rt"))
@@ -171,13 +179,52 @@ class Server(AuthorizationServer):
     def create_oauth2_request(self, request):
         if isinstance(request, OAuth2Request):
             return request
+        if self._transport == "flask":
+            from authlib.integrations.flask_oauth2 import AuthorizationServer as F
+            return F.create_oauth2_request(self, request)
+        if self._transport == "django":
+            from authlib.integrations.django_oauth2 import AuthorizationServer as D
+            return D.create_oauth2_request(self, request)
         return OAuth2Request(request.method, request.uri, request.form, request.headers)
 
     def create_json_request(self, request):
+        if self._transport == "flask":
+            from authlib.integrations.flask_oauth2 import AuthorizationServer as F
+            return F.create_json_request(self, request)
+        if self._transport == "django":
+            from authlib.integrations.django_oauth2 import AuthorizationServer as D
+            return D.create_json_request(self, request)
         return JsonRequest(request.method, request.uri, request.body, request.headers)
 
     def handle_response(self, status, body, headers):
+        if self._transport == "flask":
+            from authlib.integrations.flask_oauth2 import AuthorizationServer as F
+            return F.handle_response(self, status, body, headers)
+        if self._transport == "django":
+            from authlib.integrations.django_oauth2 import AuthorizationServer as D
+            return D.handle_response(self, status, body, headers)
         return status, body, headers
+
+    # the public entry points, each taking an HReq: through the chosen glue when every transport reads the request alike
+    def _through(self, request, f):
+        from impl import transports as T
+        if self.transport != "neutral" and isinstance(request, HReq) and T.usable(request, self.transport):
+            self.via[self.transport] = self.via.get(self.transport, 0) + 1
+            return T.call(self, self.transport, request, f)
+        self.via["neutral"] = self.via.get("neutral", 0) + 1
+        return f(request)
+
+    def create_token_response(self, request=None):
+        return self._through(request, lambda r: AuthorizationServer.create_token_response(self, r))
+
+    def create_endpoint_response(self, name, request=None):
+        return self._through(request, lambda r: AuthorizationServer.create_endpoint_response(self, name, r))
+
+    def get_consent_grant(self, request=None, end_user=None):
+        return self._through(request, lambda r: AuthorizationServer.get_consent_grant(self, r, end_user))
+
+    def create_authorization_response(self, request=None, grant_user=None):
+        return self._through(request, lambda r: AuthorizationServer.create_authorization_response(self, r, grant_user))
 
 
 def make_grants(store, users_by_name=None):
